@@ -73,6 +73,35 @@ def strict_api_refusals(run, rng, dist):
     for v in S.VERSIONS:
         lib = hl7apy.load_library(v)
         names = [s for s in sorted(lib.SEGMENTS) if S.ok_segment(lib, s) and s != 'MSH' and lib.SEGMENTS[s][1]]
+        # one probe per base datatype of the version: a field of a base datatype takes ONE component under STRICT
+        seen_dt = {}
+        for sname in names:
+            for r_ in lib.SEGMENTS[sname][1]:
+                if r_[1][0] == 'leaf' and r_[1][2] in lib.get_base_datatypes() and r_[2][1] != 0 \
+                        and r_[1][2] not in seen_dt:
+                    seen_dt[r_[1][2]] = r_[0]
+        for dt_, fname_ in sorted(seen_dt.items()):
+            dist['api_probes'] = dist.get('api_probes', 0) + 1
+            try:
+                f_ = Field(fname_, version=v, validation_level=S.STRICT)
+                f_.add(Component(datatype=dt_, version=v, validation_level=S.STRICT))
+                f_.add(Component(datatype=dt_, version=v, validation_level=S.STRICT))
+                run.fail('strict-admits-second-component-in-base-field', 'STRICT construction admits a second component '
+                         'in a field of a base datatype', version=v, segment=fname_[:3], field=fname_, datatype=dt_)
+            except (HL7apyException, ValueError):
+                pass
+            except Exception as ex:  # noqa
+                run.fail('strict-api-crash', 'a STRICT API call raised a non-library exception', version=v,
+                         segment=fname_[:3], field=fname_, what='second component', exc=repr(ex))
+            # the same through text: STRICT parse of two components into that field must be refused
+            try:
+                from hl7apy.parser import parse_field
+                parse_field('a^b', name=fname_, version=v, validation_level=S.STRICT,
+                            encoding_chars=S.default_ec(v))
+                run.fail('strict-admits-second-component-in-base-field', 'STRICT parse_field admits two components in a '
+                         'field of a base datatype', version=v, segment=fname_[:3], field=fname_, datatype=dt_)
+            except (HL7apyException, ValueError):
+                pass
         for sname in rng.sample(names, 6):
             rows = lib.SEGMENTS[sname][1]
             row = rng.choice(rows)
